@@ -113,6 +113,112 @@ theorem lm_readers_block_not_drop (c : LM.Cfg) (s s' : LM.St) (op : LM.Op) (r : 
 
 example : lmInGet .parked = true := rfl
 
+/-- a reader inside the standard pool's `get` -/
+def stdInGet : Std.Pc → Bool
+  | .tkt | .try_ .. | .slowInc _ | .wantLock _ | .willWait _ | .parked _ | .woken _ | .unlocking _
+  | .postUnlock _ | .taken _ | .out _ => true
+  | _ => false
+
+theorem stdInGet_wake (pc : Std.Pc) : stdInGet (Std.wake pc) = stdInGet pc := by cases pc <;> rfl
+
+theorem stdInGet_casFail (x c t : Nat) : stdInGet (Std.casFail x c t) = true := by
+  unfold Std.casFail; split
+  · rfl
+  · split <;> rfl
+
+set_option hygiene false in
+/-- the moving reader `r0` is inside get before and after (or returns with an event) -/
+macro "rb_in" : tactic => `(tactic| (
+  simp only [Std.setPc, Std.setSlot] at hpc'
+  rcases set_cases _ _ _ _ _ _ hpc' hpc with ⟨_, e'⟩ | e
+  · subst e'; first | exact Or.inl rfl | exact Or.inr ⟨_, rfl⟩
+  · subst e; exact Or.inl hin))
+
+set_option hygiene false in
+/-- the moving reader `r0` is outside get (its old pc `h0` is not a get pc): it is not `r` -/
+macro "rb_out" : tactic => `(tactic| (
+  simp only [Std.setPc, Std.setSlot] at hpc'
+  rcases set_cases _ _ _ _ _ _ hpc' hpc with ⟨e, _⟩ | e
+  · subst e; rw [h0] at hpc; simp at hpc; subst hpc; simp [stdInGet] at hin
+  · subst e; exact Or.inl hin))
+
+/-- **readers_block_not_drop** (standard pool): a reader inside `get` stays inside `get` (spinning,
+    parked or retrying) until it returns with an event; no step of anybody makes it return empty-handed. -/
+theorem std_readers_block_not_drop (s s' : Std.St) (op : Std.Op) (r : Nat) (pc pc' : Std.Pc)
+    (hs : Std.step? s op = some s') (hpc : s.pcs[r]? = some pc) (hin : stdInGet pc = true)
+    (hpc' : s'.pcs[r]? = some pc') :
+    stdInGet pc' = true ∨ ∃ e, pc' = .holding e := by
+  have bc : ∀ (l : List Std.Pc), l[r]? = some pc → (l.map Std.wake)[r]? = some pc' → stdInGet pc' = true := by
+    intro l hl h
+    simp only [List.getElem?_map, hl] at h
+    simp at h; subst h; rw [stdInGet_wake]; exact hin
+  cases op with
+  | hbRead => simp [Std.step?] at hs; subst hs; rw [hpc] at hpc'; simp at hpc'; subst hpc'; exact Or.inl hin
+  | hbFire =>
+    simp [Std.step?] at hs; subst hs
+    split at hpc'
+    · exact Or.inl (bc s.pcs hpc hpc')
+    · rw [hpc] at hpc'; simp at hpc'; subst hpc'; exact Or.inl hin
+  | bBcast r0 =>
+    simp only [Std.step?] at hs; split at hs <;> simp at hs; subst hs; rename_i h0
+    simp only [Std.broadcast, Std.setPc] at hpc'
+    by_cases e : r0 = r
+    · subst e; rw [h0] at hpc; simp at hpc; subst hpc; simp [stdInGet] at hin
+    · exact Or.inl (bc _ (by rw [List.getElem?_set_ne e]; exact hpc) hpc')
+  | start r0 =>
+    simp only [Std.step?] at hs; split at hs <;> simp at hs; subst hs; rename_i h0; rb_out
+  | bDec r0 =>
+    simp only [Std.step?] at hs; split at hs <;> simp at hs; subst hs; rename_i h0; rb_out
+  | tkt r0 =>
+    simp only [Std.step?] at hs; split at hs <;> simp at hs; subst hs; rb_in
+  | cas r0 =>
+    simp only [Std.step?] at hs
+    split at hs
+    · split at hs
+      · split at hs <;> simp at hs <;> subst hs
+        · rb_in
+        · simp only [Std.setPc] at hpc'
+          rcases set_cases _ _ _ _ _ _ hpc' hpc with ⟨_, e'⟩ | e
+          · subst e'; exact Or.inl (stdInGet_casFail _ _ _)
+          · subst e; exact Or.inl hin
+      · simp at hs
+    · simp at hs
+  | swInc r0 | waitEnq r0 | unlock r0 | swDec r0 | iInc r0 =>
+    simp only [Std.step?] at hs; split at hs <;> simp at hs; subst hs; rb_in
+  | lock r0 | relock r0 =>
+    simp only [Std.step?] at hs; split at hs
+    · split at hs <;> simp at hs; subst hs; rb_in
+    · simp at hs
+  | take r0 =>
+    simp only [Std.step?] at hs
+    split at hs
+    · split at hs
+      · split at hs <;> simp at hs <;> subst hs
+        · rb_in
+        · rw [hpc] at hpc'; simp at hpc'; subst hpc'; exact Or.inl hin
+      · simp at hs
+    · simp at hs
+  | bstart r0 | btkt r0 =>
+    simp only [Std.step?] at hs; split at hs <;> simp at hs; subst hs; rename_i h0; rb_out
+  | bcas r0 =>
+    simp only [Std.step?] at hs
+    split at hs
+    · rename_i h0
+      split at hs
+      · split at hs <;> simp at hs <;> subst hs
+        · rb_out
+        · rw [hpc] at hpc'; simp at hpc'; subst hpc'; exact Or.inl hin
+      · simp at hs
+    · simp at hs
+  | bput r0 =>
+    simp only [Std.step?] at hs
+    split at hs
+    · rename_i h0
+      split at hs <;> simp at hs; subst hs; rb_out
+    · simp at hs
+
+example : stdInGet (.parked 0) = true := rfl
+
 /-- **standard pool, capacity**: in every reachable state the events out of the pool
     (successful gets minus backs begun) are the readers holding one, never more than the capacity;
     `inUseEvents` counts them plus the returns that have not reached their `Dec` yet. -/
